@@ -27,6 +27,8 @@ void   PushLocHandle(LongInt NewLoc) { (void)NewLoc; g_push++; }
 void   PopLocHandle(void) { g_pop++; }
 LongInt GetLocHandle(void) { return 7; }
 
+void   ClearStringList(StringList* List) { *List = NULL; }   /* stringlists.c: frees every record; the list is empty afterwards */
+size_t strmaxcpy(char* dest, char const* src, size_t Max) { size_t n = 0; if (!Max) return 0; while (n < 3 && src[n] && n + 1 < Max) { dest[n] = src[n]; n++; } dest[n] = 0; return n; }
 /* observers for the parameter text IRP_GetPos builds */
 static char const* g_cpy_src; static char const* g_cat_src[4]; static int g_cat_calls;
 static char* mon_strcpy(char* d, char const* s) { g_cpy_src = s; d[0] = s[0]; if (s[0]) d[1] = 0; return d; }
@@ -115,5 +117,36 @@ void h_IRP_step(void) {
     VPOST(g_pos_calls == 1 && g_pos_b == (unsigned long)l0, "C20: IRP position names the body line that was just delivered");
     VPOST(g_cpy_src == partxt[p0 - 1], "C20: IRP position names the parameter (group) that was just substituted");
     VPOST(n < 2 || (g_cat_calls == 2 && g_cat_src[1] == partxt[p0]), "C20: IRPN position lists the whole parameter group");
+    VREACH("end");
+}
+
+/* EXITM inside an IRP body: ExpandEXITM runs the construct's Cleanup, and the reader runs it again when it drops the
+ * (now empty) input level.  Cleanup must therefore be safe on an already cleaned-up level (C03: no crash; C11: EXITM). */
+void h_IRP_Cleanup_twice(void) {
+    mk_tag();
+    tag.Processor = IRP_Processor;
+    VND(tag.ParIter, int); VASSUME(tag.ParIter >= 0 && tag.ParIter <= 2);
+    IRP_Cleanup(&tag);
+    VPOST(tag.Params == NULL && tag.Lines == NULL, "C11: EXITM releases the body and parameter lists of the IRP level");
+    VPOST(tag.SaveAttr[0] == partxt[3][0], "C20: the last parameter is kept for position reports");
+    IRP_Cleanup(&tag);                                       /* second call from the reader (GetNextLine) */
+    VPOST(tag.Params == NULL && tag.Lines == NULL, "C03: cleaning up an IRP level twice (EXITM, then end of level) is harmless");
+    VREACH("end");
+}
+
+/* MACRO: the local symbol space opened before the first body line is closed exactly once when the level ends --
+ * and not at all for an empty body, whose level ends without MACRO_Processor ever running (otherwise the pop
+ * discards the symbol space of the ENCLOSING macro: labels of the caller become undefined). */
+void h_MACRO_local_balance(void) {
+    static MacroRec mac; as_dynstr_t dst; int n, i; Boolean more = True;
+    mk_tag();
+    tag.First = True;                                       /* as GenerateProcessor creates every input level */
+    tag.Processor = MACRO_Processor; tag.Macro = &mac; tag.ParCnt = 0; tag.Params = NULL; tag.LineZ = 1; tag.LineRun = NULL;
+    tag.UsesNumArgs = tag.UsesAllArgs = False; mac.LocIntLabel = False; VND(mac.UseCounter, int); HasAttrs = False;
+    VND(n, int); VASSUME(n >= 0 && n <= tag.LineCnt);          /* body lines delivered before the level ends (0 = empty body / never run) */
+    for (i = 0; i < 3; i++) if (i < n) more = MACRO_Processor(&tag, &dst);
+    VPOST(g_push == ((n >= 1 && !tag.GlobalSymbols) ? 1 : 0), "C11: a macro expansion opens its local symbol space before its first body line");
+    MACRO_Restorer(&tag);
+    VPOST(g_pop == g_push, "C11: a macro level closes exactly the local symbol spaces it opened, none for an empty body (also C13: labels of the caller stay defined)");
     VREACH("end");
 }
